@@ -108,10 +108,9 @@ def gen_params(rng, cls, ndat_min, nch_min):
         p = {"br": rng.randint(2, 8), "ordmax": rng.choice([4, 6, 8, 10, 12]), "ordmin": 0, "step": 1}
         if permissive:
             p["hc"] = dict(PERMISSIVE)
-        r = rng.random()
-        if cls in ("SSIcov", "SSIcov_MS"):
-            if r < 0.3:
-                p["method"] = rng.choice(["cov_R", "cov_mm"])
+        if rng.random() < 0.35:
+            # any Hankel assembly method may be requested explicitly from either class
+            p["method"] = rng.choice(["cov_R", "cov_mm", "dat"])
         if cls in ("SSIcov", "SSIdat") and rng.random() < 0.3 and nch_min >= 2:
             p["ref_ind"] = sorted(rng.sample(range(nch_min), rng.randint(1, nch_min)))
         if cls == "SSIcov" and rng.random() < 0.12:
